@@ -60,6 +60,9 @@ SPECS = [
     "ws_serve=p2p/transport/websocket/listener.go:listener.ServeHTTP",
     "ws_netaccept=p2p/transport/websocket/listener.go:httpNetListener.Accept",
     "swarm_addlisten=p2p/net/swarm/swarm_listen.go:Swarm.AddListenAddr",
+    "stream_close=p2p/net/swarm/swarm_stream.go:Stream.Close",
+    "stream_reset=p2p/net/swarm/swarm_stream.go:Stream.Reset",
+    "stream_reset_err=p2p/net/swarm/swarm_stream.go:Stream.ResetWithError",
 ]
 
 
@@ -129,6 +132,7 @@ FAULT = {0: "none", 1: "read error", 2: "write error", 3: "EOF", 4: "socket dies
          10: "none (protocol served)", 11: "no handler for the protocol", 12: "local rcmgr refuses the protocol scope", 13: "remote rcmgr refuses the protocol scope",
          14: "remote handler resets", 15: "context cancelled (served protocol)", 16: "context cancelled (unserved protocol)",
          17: "raw stream closed before protocol negotiation", 18: "garbage instead of protocol negotiation",
+         19: "remote handler resets; this end finishes with Close", 20: "this end resets after the first write; the remote handler finishes with Close",
          200: "accept queue not served", 201: "remote closed while queued", 202: "listener closed with a parked connection"}
 SPECIAL = {0: "", 1: "dial with empty peer ID", 2: "server gater rejects at InterceptSecured", 3: "client gater rejects at InterceptSecured",
            4: "server gater rejects at InterceptAccept", 5: "private network forced, no PSK", 6: "nobody accepts for longer than the accept timeout", 7: "the remote closes while the upgraded conn waits in the accept queue"}
